@@ -32,7 +32,14 @@ LEVEL_TEXT = ("query_history_free (Lean, by induction over arbitrary interleavin
               "the other by exactly the declared ratio (once_declared_it_converts) - also between powers, (X**2).equals(4*Y**2), where "
               "the pinned code failed (fix: commit). 'Conversions attempted in between never change the outcome of a later one' "
               "is proved for conversions between simple units: after any Steps (unit operations, consistent declarations, direct and "
-              "planner conversions) the same conversion returns the same magnitude (simple_conversion_history_free). The uncached computation being a function of the declared graph is tied to "
+              "planner conversions) the same conversion returns the same magnitude (simple_conversion_history_free); for single-factor units "
+              "of any fundamental dimension - temperatures with their offsets included - with NO exactness assumption on the graph "
+              "(the shipped float constants): the path search there is a pure function of the two tables (findPath_flat) and the same "
+              "conversion returns the same magnitude in any later state of the same tables (flat_conversion_state_free). And FOR EVERY "
+              "QUERY WHATSOEVER - any conversion, comparison, sum, product, power or root, with any arguments, returning or raising, "
+              "through every branch of the factor planner - the ratio and offset tables and the interpreter flag are left as they were "
+              "and the unit table only grows, old units unchanged (framed_convert, ..., queries_frame: no history of queries changes "
+              "the declarations; a structural walk over the model's code, Proofs/Frame.lean). The uncached computation being a function of the declared graph is tied to "
               "the code by the cache-free Lean model of the planner (differential execution of histories against the memoising "
               "implementation) and by the property's own oracle: replay of declarations + one query in a fresh interpreter.")
 LEVEL_NOTE = ("Partial: the planner itself is NOT history independent - the order of an interned unit's factor mapping, fixed by "
@@ -50,8 +57,10 @@ THEOREMS = [
     "Measured.C08.declared_pair_is_found", "Measured.C08.once_declared_it_converts", "Measured.equate_declares",
     "Measured.C08.simple_conversion_history_free", "Measured.steps_spec",
     "Measured.findPath_flat", "Measured.flat_conversion_state_free",
+    "Measured.framed_convert", "Measured.framed_planConversion", "Measured.framed_eq", "Measured.framed_lt",
+    "Measured.framed_add", "Measured.queries_frame",
 ]
-LEAN_TARGETS = ["Props.C08", "Props.C08Planner", "Props.C08Declared", "Proofs.Flat", "Obligations.C08"]
+LEAN_TARGETS = ["Props.C08", "Props.C08Planner", "Props.C08Declared", "Proofs.Flat", "Proofs.Frame", "Obligations.C08"]
 QUICK = {"chunks": 4, "ops": 500}
 THOROUGH = {"chunks": 16, "ops": 3000}
 RULE = ("histories of 15-40 actions over 3-5 freshly defined base units and shipped units; non-trivial = a query whose "
